@@ -852,12 +852,17 @@ class LanguageGraph():
                         msg % (association["rightAsset"], association["name"])
                     )
 
-                # Technically we should be more exhaustive and check the
-                # flipped version too and all of the fieldnames as well.
+                # Association names are not unique in MAL, the field names
+                # are what tells two associations between the same pair of
+                # assets apart.
                 assoc_node = next((assoc for assoc in self.associations \
                     if assoc.name == association['name'] and
                         assoc.left_field.asset == left_asset and
-                        assoc.right_field.asset == right_asset),
+                        assoc.right_field.asset == right_asset and
+                        assoc.left_field.fieldname == \
+                            association['leftField'] and
+                        assoc.right_field.fieldname == \
+                            association['rightField']),
                         None)
                 if assoc_node:
                     # The association was already created, skip it
